@@ -787,7 +787,7 @@ def check_C02(tier, seed):
     engine.judge_cases(rep, cases, devs, what='program')
     cases_all += cases
     # every table entry with every pair of host values and with more arguments than it takes (lambdas, flag strings ...)
-    scns = families.builtin_matrix(seed, 2000 if quick else 12000)
+    scns = families.builtin_matrix(seed, 2000 if quick else 12000, plain_only=True)
     cases = engine.run_family(rep, scns)
     engine.judge_cases(rep, cases, devs, what='builtin x argument matrix')
     cases_all += cases
